@@ -428,8 +428,33 @@ func c12Readers(c *core.Ctx) {
 		}
 		recs = append(recs, rec)
 	}
-	mode := r.Pick(gen.ModePass, gen.ModeFilter, gen.ModeCopy)
+	mode := r.Pick(gen.ModePass, gen.ModeFilter, gen.ModeCopy, gen.ModeFailing)
+	if mode == gen.ModeFailing {
+		for i := range recs {
+			if r.Chance(1, 4) {
+				recs[i].Num = "x" // this record's transform fails (continuable)
+			}
+		}
+	}
 	input := k.Render(r, recs, gen.RenderOpts{BlankLines: r.Bool()})
+	if (format == "csv" || format == "csv2") && r.Chance(1, 3) {
+		// lines the reader itself rejects with a continuable error (a bare quote in an unquoted field), between records
+		for t := 0; t < r.Range(1, 3); t++ {
+			var ends []int
+			for i, b := range input {
+				if b == '\n' {
+					ends = append(ends, i+1)
+				}
+			}
+			if len(ends) < 2 {
+				break
+			}
+			pos := ends[r.Intn(len(ends))]
+			bad := []byte("bad\"quote" + k.Delim + "1\n")
+			input = append(append(append([]byte{}, input[:pos]...), bad...), input[pos:]...)
+			c.Inc("reader_inputs_with_malformed_lines")
+		}
+	}
 	s, err := omni.NewSchema(k.Schema(mode))
 	if err != nil {
 		c.Inconclusive("kit schema rejected: " + err.Error())
@@ -449,9 +474,13 @@ func c12Readers(c *core.Ctx) {
 	detail := func() map[string]interface{} {
 		return map[string]interface{}{"format": format, "schema": string(k.Schema(mode)), "input": core.Trunc(string(input), 3000)}
 	}
-	for i := 0; i < n+3; i++ {
+	for i := 0; i < 2*n+10; i++ {
 		_, err := tr.Read()
 		if err != nil {
+			if omni.Classify(err) == omni.FAIL {
+				c.Inc("reader_continuable_errors") // the stream goes on: the next record's tree is audited like any other
+				continue
+			}
 			break
 		}
 		rr, rerr := tr.RawRecord()
